@@ -16,7 +16,8 @@ META = {
     "functions": ["typelib.ctx.TypeContext.__missing__", "typelib.ctx.TypeContext.get", "dict.__getitem__/__contains__ on TypeContext",
                   "typelib.py.inspection.unwrap", "typelib.py.refs.forwardref"],
     "bounds": {
-        "quick": "key family of one base type x 6 forms (+ a second family for non-interference); pre-state: 6 presence bits, up to 4 "
+        "quick": "key family of one base type x 6 stored forms + 5 two-layer lookup keys (NewType over alias / over string alias / of NewType, alias of NewType, Final of NewType) "
+                 "(+ a second family for non-interference and a stored reference to a short-name decoy); one top-level base family (seed-rotated of 3) and the nested-class family (dotted qualified name); pre-state: 6 presence bits, up to 4 "
                  "alias-memo bits (choice variables, realised by the solver; the step then runs natively), distinct stored tokens; op1 in {[], get(default), in(stored keys)} x 6 keys, "
                  "then op2 = [] / get with a symbolic key; all three base families; 20 s per condition",
         "thorough": "same with both op orders and the second family at full size; 60 s per condition",
@@ -47,10 +48,15 @@ def _d(*xs):
     return "" if SYMBOLIC else " | ".join(repr(x)[:200] for x in xs)
 
 
+INTERMEDIATE = {6: 2, 7: 3, 8: 1, 9: 1, 10: 1}  # the one-layer key directly below a two-layer key
+
+
 def make(fi, op1, k1, use_get2, timeout):
     fam = K.FAMILIES[fi]
     other = K.FAMILIES[(fi + 1) % 3]
     opname = ("getitem", "get", "contains")[op1]
+    two_layer = k1 >= 6
+    nk2 = 11 if two_layer else 6
 
     def body(c0: int, c1: int, c2: int, c3: int, c4: int, c5: int, c6: int):
         from vlib.prelude import Chooser
@@ -75,12 +81,13 @@ def make(fi, op1, k1, use_get2, timeout):
         # alias memo entries an earlier lookup may have written (representation invariant assumed of the
         # pre-state): an absent alias key carrying the value of its unwrapped form
         memo = {}
-        for i in (1, 2, 3, 4):
+        for i in ((1, 2, 3, 4) if not two_layer else (INTERMEDIATE[k1],)):
             u = K.UNWRAPS_TO[i]
             if i not in stored and u in stored and ch.flag():
                 c[fam[i]] = stored[u]
                 memo[i] = stored[u]
         c[other[0]] = 500
+        c[K.DECOY_REF] = 600  # names the top-level class that shares the nested class's short name
         key1 = fam[k1]
         exp1 = model_lookup(stored, k1)
         if op1 == 0:
@@ -101,7 +108,7 @@ def make(fi, op1, k1, use_get2, timeout):
         if not _eq(got1, exp1):
             return ("lookup_disagrees_with_model:" + opname, f"form{k1}", _d(stored, memo, got1, exp1))
         # second lookup: any key of the family, by [] or get
-        k2 = ch.pick(6)
+        k2 = ch.pick(nk2)
         key2 = fam[k2]
         exp2 = model_lookup(stored, k2)
         if use_get2:
@@ -120,11 +127,11 @@ def make(fi, op1, k1, use_get2, timeout):
                 ok, r = attempt(lambda: c[fam[i]])
                 if not ok or not _eq(r, stored[i]):
                     return ("stored_key_lost", f"form{k1}", _d(stored, i))
-        if not _eq(c[other[0]], 500) or other[1] in c or other[5] in c:
+        if not _eq(c[other[0]], 500) or other[1] in c or other[5] in c or not _eq(dict.__getitem__(c, K.DECOY_REF), 600):
             return ("other_family_disturbed", f"form{k1}", "")
         # representation invariant after the step: every non-stored family key present in the dict
         # carries exactly the value the model resolves it to
-        for i in range(6):
+        for i in range(11):
             if i not in stored and fam[i] in c:
                 ok, r = attempt(dict.__getitem__, c, fam[i])
                 if not ok or not _eq(r, model_lookup(stored, i)):
@@ -146,10 +153,15 @@ def _eq(a, b):
 def conditions(tier, seed):
     to = 40.0 if tier == "quick" else 90.0
     out = []
-    fams = (0, 1, 2) if tier != "quick" else (seed % 3,)
+    fams = (0, 1, 2, 3) if tier != "quick" else (seed % 3, 3)  # family 3: a nested class (dotted qualified name) + short-name decoy
     for fi in fams:
         for op1 in (0, 1, 2):
             for k1 in range(6):
                 for g2 in (False, True):
                     out.append(make(fi, op1, k1, g2, to))
+        for op1 in (0, 1):
+            for k1 in range(6, 11):  # two-layer keys are looked up, never stored
+                out.append(make(fi, op1, k1, (k1 + op1) % 2 == 1 if tier == "quick" else False, to))
+                if tier != "quick":
+                    out.append(make(fi, op1, k1, True, to))
     return out
